@@ -7,8 +7,9 @@ usage: gen_literal_cases.py <seed> <count> [--run] [--no-exhaustive] [--keep DIR
 Without --run: prints one case per line on stdout
     <index> TAB <family> TAB <tree> TAB <hex of an overriding source text, or ->
   <tree> is the literal in the prefix notation read by /verif/build/literal_driver (see /verif/driver/literal/main.ml):
-    n<dec> m<dec>(negated) x<dec>(hex spelling) b<dec>(binary spelling) f+<hex text> f-<hex text> s<hex value>
-    A<k> t1..tk   T<k> t1..tk
+    n<dec> m<dec>(negated) x<dec>(hex spelling) b<dec>(binary spelling) o<dec>(octal spelling)
+    r<x|X|b|B|o|O><hex of the digits and '_' after the prefix>(any prefixed spelling: LiteralSpec.CRad)
+    f+<hex text> f-<hex text> s<hex value>   A<k> t1..tk   T<k> t1..tk
   The source text of a case is LiteralSpec.src(tree) unless an overriding text is given (leading zeros, `_`
   separators, octal, upper-case prefixes, the raw-UTF-8 quoting of strings, malformed spellings: the tree then
   states the VALUE the text denotes, or is "-" when the case only compares code and model).
@@ -24,11 +25,12 @@ With --run: runs
     (0) strconv's answers agree with Python's own float()/repr() (cross-check of the oracle = trusted base)
     (1) model = code, and the model is never OOF / NOORACLE on a case that has a tree with wfb = true
     (2) wfb(tree) => code = "L" canon(tree)                                      (the theorem's instance)
-    (3) not wfb(tree): code vs canon(tree) is classified; a difference is a FINDING (known deviation classes:
-        bin-ge-2^64 = binary literal >= 2^64 printed as a string literal, float-text-rejected-by-strconv = a float
-        text that strconv rejects (1e999) printed as a string literal); anything else that differs and is not
-        structurally non-literal is reported as FINDING class=other.  For every case of a FINDING class one
-        machine-readable line `FINDING-KEY <class> <hex source>` is printed besides the human-readable ones.
+    (3) not wfb(tree): code vs canon(tree) is classified; a difference is a FINDING (known deviation class:
+        float-text-rejected-by-strconv = a float text that strconv rejects (1e999) printed as a string literal);
+        anything else that differs and is not structurally non-literal is reported as FINDING class=other.  For every
+        case of a FINDING class one machine-readable line `FINDING-KEY <class> <hex source>` is printed besides the
+        human-readable ones.  (Binary / octal / underscored literals >= 2^64 were such a class, `bin-ge-2^64`, until
+        parseNumber got parseRadixToFloat: they are ordinary well-formed trees now, checked under (1) and (2).)
     (4) quoted identifiers (families ident-bt / ident-dq; they are not literals): the token streams of code
         (`litdump -tokens`) and model (`literal_driver tokens`) are equal and equal to [IDENT <value>] with the value
         the generator built the spelling from (backslash + multi-byte character, invalid bytes, mixed escapes)
@@ -303,6 +305,55 @@ def underscored(digits, r):
     return out
 
 
+RADIX = {"x": 16, "b": 2, "o": 8}
+
+
+def radix_digits(kind, v):
+    return {"x": "%x" % v, "b": bin(v)[2:], "o": "%o" % v}[kind]
+
+
+def t_rad(letter, digits):
+    """CRad tree: the prefix letter (its case = the case of the prefix) and the digit/separator text after it"""
+    return "r" + letter + digits.encode().hex()
+
+
+def grouped(digits, k):
+    """'_' between groups of k digits, counted from the right"""
+    out = []
+    while digits:
+        out.append(digits[-k:])
+        digits = digits[:-k]
+    return "_".join(reversed(out))
+
+
+def radix_spellings_systematic(kind, v):
+    """well-formed spellings of v (LiteralSpec.rad_ok, and lexable: no '_' directly after 0b) as (letter, digits)"""
+    d = radix_digits(kind, v)
+    up = kind.upper()
+    out = [(up, d.upper()), (kind, "00" + d), (kind, grouped(d, 4)), (up, grouped(d.upper(), 3)), (kind, "0_" + d)]
+    if kind != "b":
+        out.append((kind, "_" + d))
+        out.append((up, "_" + grouped(d, 2)))
+    if kind == "x":
+        out.append((kind, "".join(c.upper() if i % 2 else c for i, c in enumerate(d))))
+    return out
+
+
+def radix_spelling_random(kind, v, r):
+    d = radix_digits(kind, v)
+    if r.chance(1, 3):
+        d = "0" * (1 + r.below(3)) + d
+    if kind == "x":
+        d = "".join(c.upper() if r.chance(1, 2) else c for c in d)
+    out = ""
+    for i, c in enumerate(d):
+        if (i > 0 or kind != "b") and r.chance(1, 4):
+            out += "_"
+        out += c
+    letter = kind.upper() if r.chance(1, 3) else kind
+    return letter, out
+
+
 def int_cases_systematic():
     cases = []
     bounds = [0, 1, 1 << 31, 1 << 32, 1 << 53, 1 << 63, 1 << 64]
@@ -316,21 +367,39 @@ def int_cases_systematic():
             if 10 ** k + d >= 0:
                 vals.add(10 ** k + d)
     vals |= {(1 << 70) - 1, 1 << 70, (1 << 64) + (1 << 11), (1 << 64) + (1 << 11) + 1, 0xFF, 5, 15}
-    for v in sorted(vals):
-        for kind in "nmxb":
-            if kind == "b" and v >= (1 << 66):
-                continue
+    # far beyond 2^64: the float64 nearest to the integer, up to the largest finite float and beyond (inf)
+    huge = {1 << 100, (1 << 200) + 12345, 1 << 1023, (1 << 1024) - (1 << 970), (1 << 1024) - (1 << 970) + (1 << 969),
+            1 << 1024, (1 << 1030) + 1}
+    for v in sorted(vals | huge):
+        # (a decimal integer that rounds to inf is a strconv range error like 1e999: outside the quantifier, not generated)
+        for kind in ("xbo" if v in huge else "nmxbo"):
             for t in nestings(kind + str(v), other="n7"):
                 cases.append(("int", t, None))
         d = str(v)
-        cases.append(("int-lead0", "n%d" % v, ("00" + d).encode()))
-        cases.append(("int-lead0", "m%d" % v, ("-0" + d).encode()))
-        cases.append(("int-space", "m%d" % v, ("- " + d).encode()))
-        big = v >= (1 << 64)        # octal >= 2^64: strconv rejects it and a string is printed; the property is silent on octal
-        cases.append(("int-octal", "-" if big else "n%d" % v, ("0o%o" % v).encode()))
+        if v not in huge:
+            cases.append(("int-lead0", "n%d" % v, ("00" + d).encode()))
+            cases.append(("int-lead0", "m%d" % v, ("-0" + d).encode()))
+            cases.append(("int-space", "m%d" % v, ("- " + d).encode()))
+        # other spellings of hex / binary / octal literals, (a) as a tree that states the VALUE with the text as an override,
+        # (b) as the CRad tree of the text itself
+        cases.append(("int-octal", "o%d" % v, ("0o%o" % v).encode()))
         cases.append(("int-upper", "x%d" % v, ("0X%X" % v).encode()))
         cases.append(("int-upper", "b%d" % v, ("0B" + bin(v)[2:]).encode()))
-        cases.append(("int-upper", "-" if big else "n%d" % v, ("0O%o" % v).encode()))
+        cases.append(("int-upper", "o%d" % v, ("0O%o" % v).encode()))
+        for kind in "xbo":
+            for j, (letter, digits) in enumerate(radix_spellings_systematic(kind, v)):
+                cases.append(("int-radix", kind + str(v), ("0" + letter + digits).encode()))
+                t = t_rad(letter, digits)
+                for tt in (nestings(t, other="m3") if (j == 2 or v in (1 << 64, (1 << 64) - 1)) else [t]):
+                    cases.append(("int-radix", tt, None))
+        # negated prefixed literals (the spec has no tree for them: code vs model)
+        if v in ((1 << 63), (1 << 63) + 1, (1 << 64) - 1, 1 << 64, (1 << 64) + 1, 1 << 70, 1 << 1024, 0, 1):
+            for kind in "xbo":
+                sp = "0" + kind + radix_digits(kind, v)
+                sp2 = "0" + kind.upper() + grouped(sp[2:], 4)
+                for txt in ("-" + sp, "[-" + sp + "]", "(1, -" + sp + ")", "[[-" + sp + "], [2]]", "-" + sp + "::Int8",
+                            "[" + sp + ", -" + sp2 + "]", "(-" + sp2 + ", (1, -" + sp + "))"):
+                    cases.append(("raw", "-", txt.encode()))
     # spellings the property is silent about: code vs model only
     for s in ["0x", "0b", "0o", "0b2", "0o8", "08", "09", "0x_ff", "0xff_", "0xff__ff", "0b1_", "0b_1", "0o_7",
               "1_", "1__0", "1_a", "1e", "1e+", "0xg", "0x1p4", "0x1.8p1", "0x.8p1", "0x1p-2", "0X1P4", "1.", ".5",
@@ -343,6 +412,11 @@ def int_cases_systematic():
               "1e999", "-1e999", "[1e999]", "[-1e999]", "[[-1e999]]", "(1, -1e999)", "1e-999", "[[-'a']]", "-'a'",
               "[-'a']", "(1, -'a')", "(1, (2, -'a'))", "[]", "()", "(1,)", "[1,]", "(1,2,)", "(1, ())", "(1, (2,))",
               "[[]]", "[[1],[]]", "[[[1]],[[]]]", "[(1,2)]", "(1,[2])", "[[1,(2,3)]]", "((1,2),(3,4))",
+              "0b1" + "0" * 64 + "_", "0b1__" + "0" * 64, "0b_1" + "0" * 64,
+              "0B1" + "0" * 64 + "2", "0o2" + "0" * 21 + "8", "0o2" + "0" * 21 + "_", "0o2__" + "0" * 21,
+              "0x1" + "0" * 16 + "__0", "0x1" + "0" * 16 + "_", "0X1" + "0" * 16 + "g", "0x1" + "0" * 16 + ".8",
+              "0x1" + "0" * 16 + "p1", "0b1" + "0" * 64 + "e5", "0b1" + "0" * 64 + ".5", "0o" + "7" * 30 + "::UInt256",
+              "0" + "7" * 25, "000" + str(1 << 64), "0" + str(1 << 64), "-0" + str(1 << 64), "0_" + str(1 << 64),
               "((1,2),[3])", "[[1,2],[3,4]]", "[[[1]]]", "[1, [2]]", "[[1], 2]", "(1, 'a', -2.5, (3, 'b'))"]:
         cases.append(("raw", "-", s.encode()))
     return cases
@@ -362,18 +436,26 @@ def int_case_random(r):
         v = (1 << 64) + r.below(1 << 20) - (1 << 19)
     else:
         v = r.below(100000)
-    kind = r.choice("nnmmxb")
-    if kind == "b" and v >= (1 << 66):
-        kind = "n"
+    kind = r.choice("nnmmxbo")
+    if kind in "xbo" and r.chance(1, 20):
+        v = (1 << (65 + r.below(1000))) + r.next()          # far beyond 2^64, up to inf
     t = kind + str(v)
     style = r.below(8)
+    if kind in "xbo" and style >= 5:                        # a random well-formed spelling, as its own CRad tree
+        letter, digits = radix_spelling_random(kind, v, r)
+        tr = t_rad(letter, digits)
+        if style == 5:
+            return ("int-radix", tr, None)
+        if style == 6:
+            return ("int-radix", r.choice(nestings(tr, other=r.choice(["n0", "m3", "s61", "x255"]))), None)
+        return ("int-radix", t, ("0" + letter + digits).encode())
     if style == 0 and kind in "nm" and len(str(v)) > 1:
         s = underscored(str(v), r)
         return ("int-us", t, (("-" if kind == "m" else "") + s).encode())
     if style == 1 and kind in "nm":
         z = "0" * (1 + r.below(4))
         return ("int-lead0", t, (("-" if kind == "m" else "") + z + str(v)).encode())
-    if style == 2 and kind == "x" and 0xFF < v < (1 << 64):   # >= 2^64 with `_`: big.Int rejects it, a string is printed
+    if style == 2 and kind == "x" and 0xFF < v:
         h = "%x" % v
         i = 1 + r.below(len(h) - 1)
         return ("int-us", t, ("0x" + h[:i] + "_" + h[i:]).encode())
@@ -606,8 +688,6 @@ def tree_class(tree):
     words = tree.split(" ")
     cls = set()
     for w in words:
-        if w[0] == "b" and int(w[1:]) >= (1 << 64):
-            cls.add("bin-ge-2^64")
         if w[0] == "f":
             cls.add("float?")
     return cls
